@@ -568,6 +568,19 @@ func lookupInvariant(c *Ctx, f *core.Func, s *pf1Site) *pfException {
 			return e
 		}
 	}
+	// the construct may have moved into a private helper of the function the
+	// entry names (same expression, same package, reachable only from there:
+	// the context the reason speaks about is unchanged)
+	for i := range pfExceptions {
+		e := &pfExceptions[i]
+		if e.Kind != s.kind || e.Expr != s.expr || strings.HasSuffix(e.Func, "*") {
+			continue
+		}
+		if c.inRegion(e.Func, f) {
+			pfUsed[i] = true
+			return e
+		}
+	}
 	return nil
 }
 
